@@ -13,8 +13,9 @@ Ev == Trace[l]
 TInit == Init /\ tid \in 1 .. Len(Traces) /\ l = 1 /\ \A i \in 1 .. Len(Traces) : TLCSet(i, 0)
 Is(e) == l <= Len(Trace) /\ Ev.a = e /\ l' = l + 1 /\ UNCHANGED tid
 
-TStart == Is("Start") /\ Start(Ev.k)
-TExists == Is("Exists") /\ Exists(Ev.f) /\ act'.k = Ev.k /\ act'.r = Ev.r
+TStart == Is("Start") /\ Start(Ev.k, Ev.via)
+\* a logged Exists is the probe of Cached.validate (under a coalesce) or the one of Cached.evaluate
+TExists == Is("Exists") /\ (VExists(Ev.f) \/ Exists(Ev.f)) /\ act'.k = Ev.k /\ act'.r = Ev.r
 \* a logged Get is the retrieval after exists or the read-back after set
 TGet == Is("Get") /\ (Get(Ev.f) \/ Readback(Ev.f)) /\ act'.k = Ev.k /\ act'.r = Ev.r
 TCompute == Is("Compute") /\ Compute /\ act'.k = Ev.k
